@@ -598,7 +598,7 @@ func runC05(c *wk.Ctx) {
 				c.Inconclusive(fmt.Sprintf("%v: only the server's send timer is pending, but no caller is waiting", wit))
 				return
 			}
-			c.Violation("C05:callers-wait-for-the-send-timeout:"+label, fmt.Sprintf("Execute %v (Close returned: %v) wait although the connection is healthy: every goroutine is blocked and only the plugin's 60 s send timeout can still fire (both sides are blocked writing to each other)", un, res.CloseReturnedAtVerdict), wit)
+			c.Violation("C05:callers-wait-for-the-send-timeout:"+stallClass(res.Monitor.Snap), fmt.Sprintf("Execute %v (Close returned: %v) wait although the connection is healthy: every goroutine is blocked and only the plugin's 60 s send timeout can still fire (%s)", un, res.CloseReturnedAtVerdict, stallClass(res.Monitor.Snap)), wit)
 			return
 		case "deadlock":
 			var un []string
@@ -646,4 +646,19 @@ func snapSummary(s *rig.Snapshot) string {
 		return ""
 	}
 	return "; goroutines: " + clipStr(strings.Join(s.Detail(), " | "), 6000)
+}
+
+// stallClass tells the two known shapes of a send-timer stall apart: the client's read loop exists but cannot go on
+// (it waits for a lock a blocked writer holds), or the client is not reading at all (its read loop went idle while
+// one of its write loops still sends signals that the plugin answers with error messages).
+func stallClass(s *rig.Snapshot) string {
+	if s == nil {
+		return "unknown"
+	}
+	for _, g := range s.Detail() {
+		if strings.Contains(g, "executeReadLoop") {
+			return "client-read-loop-blocked"
+		}
+	}
+	return "client-not-reading"
 }
